@@ -10,6 +10,7 @@ import (
 	"bytes"
 	"fmt"
 	"math/rand"
+	"os"
 	"runtime"
 
 	"github.com/redis/rueidis"
@@ -25,6 +26,12 @@ type malformedCase struct {
 	Name string `json:"name"`
 	Toks []any  `json:"toks"`
 	Cls  string `json:"cls"`
+	// Abound > 0: the allocation the specification permits for this input (spec/data/RespAlloc.tla: AllocBounded evaluated on
+	// the bytes of the case); the driver then has no rule of its own.  0: the round 1 rule allocFactor * received + allocConst.
+	Abound int64 `json:"abound"`
+	// Detail: a refinement of the input class that belongs into the description, not into the signature (the rung of the
+	// delivery ladder: the same defect fails on many rungs)
+	Detail string `json:"detail"`
 }
 
 var ms runtime.MemStats
@@ -50,14 +57,31 @@ func runMalformed(c *malformedCase, res *caseResult, rng *rand.Rand) {
 	ex := expand(c.Toks, s)
 	data := ex.data
 	bound := uint64(allocFactor*len(data) + allocConst)
+	if c.Abound > 0 {
+		bound = uint64(c.Abound)
+	}
 	desc := c.Name + " in " + c.Sig
-	for _, p := range plansFor(ex, rng, false) {
-		for _, size := range bufSizes {
-			for _, api := range []string{"read", "stream"} {
+	if c.Detail != "" {
+		desc = c.Name + " " + c.Detail
+	}
+	var maxUsed uint64
+	plans := plansFor(ex, rng, false)
+	big := c.Abound > 0 && len(data) > 1<<16
+	if big {
+		// partially delivered bodies of up to some MiB: network segments instead of single bytes (10^9 one-byte reads otherwise),
+		// and a pairwise cover of delivery x reader size x API (4 of the 8 combinations: every decode clears MiBs of fresh memory)
+		plans = []plan{{name: "whole"}, {name: "segments1460", step: 1460}}
+	}
+	for pi, p := range plans {
+		for si, size := range bufSizes {
+			for ai, api := range []string{"read", "stream"} {
+				if big && (pi+si+ai)%2 == 1 {
+					continue
+				}
 				src, done := source(data, p)
 				r := bufio.NewReaderSize(src, size)
 				var err error
-				var w bytes.Buffer
+				var w bytes.Buffer // the caller's buffer counts as well: a decoder must not size it from a declared length either
 				before := totalAlloc()
 				pan := guarded(func() {
 					if api == "read" {
@@ -67,6 +91,9 @@ func runMalformed(c *malformedCase, res *caseResult, rng *rand.Rand) {
 					}
 				})
 				used := totalAlloc() - before
+				if used > maxUsed {
+					maxUsed = used
+				}
 				done()
 				res.Evals++
 				where := fmt.Sprintf("[%s, reader size %d, delivery %s, %d bytes received: %s]", api, size, p.name, len(data), clip(string(data)))
@@ -84,6 +111,9 @@ func runMalformed(c *malformedCase, res *caseResult, rng *rand.Rand) {
 		}
 	}
 	res.Nontrivial = len(data) > 0
+	if os.Getenv("VERIF_RESP_ALLOCLOG") != "" && c.Abound > 0 { // development aid: how close the real decoder comes to the bound
+		fmt.Fprintf(os.Stderr, "ALLOC %s "+c.Detail+" received=%d used=%d bound=%d ratio=%.3f\n", c.Name, len(data), maxUsed, bound, float64(maxUsed)/float64(bound))
+	}
 }
 
 // runValueAsBytes: the no-panic / allocation part of C13 on well-formed input.
